@@ -633,7 +633,7 @@ def run_long_descriptions(ctx):
             ctx.fail("long-description:%s:%s" % (type(e).__name__, shape), "a long description line breaks to_string / build_schema", detail)
             continue
         ctx.nontrivial(t1)
-        wrap_cases.append((shape, where, desc, got))
+        wrap_cases.append((shape, where, desc, got, t1 == t2))
         if got != desc or t1 != t2:
             if shape in ("no-break", "probe-no-break"):
                 ctx.fail("roundtrip-differs:long-line-without-break", "a long description line without a break opportunity is changed", detail)
@@ -652,8 +652,8 @@ def run_wrap_model(ctx, cases):
     if not cases or not ctx.model_ok or not ctx.driver.available():
         return
     depth = {"type": 0, "field": 1, "argument": 2}
-    answers = ctx.driver.ask([{"op": "wrapDesc", "d": d, "depth": depth[w], "indent": "    ", "first": True} for _, w, d, _ in cases])
-    for (shape, where, desc, got), a in zip(cases, answers):
+    answers = ctx.driver.ask([{"op": "wrapDesc", "d": d, "depth": depth[w], "indent": "    ", "first": True} for _, w, d, _, _ in cases])
+    for (shape, where, desc, got, fixpoint), a in zip(cases, answers):
         ctx.count()
         if "ok" not in a:
             ctx.fail("corr:wrap:no-answer", "model gives no answer", {"answer": a}, kind="correspondence")
@@ -671,10 +671,15 @@ def run_wrap_model(ctx, cases):
         elif got != value:
             ctx.fail("corr:wrap:value:%s" % shape, "the description read back from the printed text is not the wrapped lines of the model",
                      detail, kind="correspondence")
+        elif a.get("fits") and not fixpoint:
+            # rewrapped_description_fixpoint: wrapped lines that fit the width are printed the same way again
+            ctx.fail("corr:wrap:fixpoint:%s" % shape, "the wrapped lines fit the width, but printing the rebuilt schema gives another text",
+                     detail, kind="correspondence")
         else:
             ctx.nontrivial("wrap|" + where + "|" + desc)
             if a["lines"] > len(desc.split("\n")):
                 ctx.stat("wrap-model:rewrapped-and-agrees")
+            ctx.stat("wrap-model:%s" % ("fits:text-fixpoint" if a.get("fits") else "too-wide:%s" % ("fixpoint" if fixpoint else "not-a-fixpoint")))
 
 
 def run_corpus(ctx):
